@@ -487,6 +487,71 @@ func ruleR06e(c *Check) {
 func ruleR06f(c *Check) {
 	c.Rule("R06f", "every workspace file created by a restore has its mode set (Chmod) from the record's executable flag on every path to success", 2)
 	_, reach := handlerFuncs(c, "Load")
+	goodChmod := func(in ssa.Instruction) bool {
+		ch, ok := in.(ssa.CallInstruction)
+		if !ok {
+			return false
+		}
+		if n := engine.CalleeName(ch); n != "(*os.File).Chmod" && n != "os.Chmod" {
+			return false
+		}
+		args := ch.Common().Args
+		return modeFromExecFlag(c, args[len(args)-1])
+	}
+	memo := map[*ssa.Function]int{}
+	var judge func(fn *ssa.Function, s ssa.CallInstruction, depth int)
+	judge = func(fn *ssa.Function, s ssa.CallInstruction, depth int) {
+		// a helper that hands the created file on to its caller: the caller is where the mode has to be set
+		if v := s.Value(); v != nil && depth < 3 {
+			hands := false
+			for _, r := range engine.Returns(fn) {
+				for _, rv := range r.Results {
+					for _, o := range engine.Origins(rv) {
+						if o == ssa.Value(v) {
+							hands = true
+						}
+					}
+					if ex, ok := rv.(*ssa.Extract); ok && ex.Tuple == ssa.Value(v) {
+						hands = true
+					}
+				}
+			}
+			if hands {
+				callers := 0
+				for _, cs := range c.G.CallersOf(fn) {
+					if cs.Parent() != nil && reach[cs.Parent()] {
+						callers++
+						judge(cs.Parent(), cs, depth+1)
+					}
+				}
+				if callers > 0 {
+					return
+				}
+			}
+		}
+		key := "mode-restored/" + c.P.FuncName(fn)
+		marks := mustMarkCalls(c, fn, goodChmod, 2, memo)
+		cut := func(in ssa.Instruction) bool { return goodChmod(in) || marks[in] }
+		has := false
+		for _, b := range fn.Blocks {
+			for _, in := range b.Instrs {
+				if cut(in) {
+					has = true
+				}
+			}
+		}
+		if !has {
+			c.Bad("R06f", key, "the file created here never gets its mode set from the recorded executable flag: a restored executable output is not runnable", c.P.InstrPos(s))
+			return
+		}
+		var reach3 bool
+		if engine.ErrResultIndex(fn.Signature) >= 0 {
+			reach3, _ = nilReturnReachableFrom(fn, s, engine.PathQuery{CutInstr: cut, Shallow: true})
+		} else {
+			reach3, _ = engine.PathExists(fn, s, func(in ssa.Instruction) bool { _, r := in.(*ssa.Return); return r && in.Parent() == fn }, engine.PathQuery{CutInstr: cut, Shallow: true})
+		}
+		c.Require(!reach3, "R06f", key, "every success path after the creation passes a Chmod whose mode depends on the recorded executable flag", "a success return is reachable after creating the file without setting its mode from the executable flag", c.P.InstrPos(s))
+	}
 	for _, fn := range c.P.Funcs {
 		if !reach[fn] || !engine.InPackage(fn, "output/handlers") {
 			continue
@@ -498,55 +563,51 @@ func ruleR06f(c *Check) {
 			if derivesFromCall(s.Common().Args[0], "os.CreateTemp", "os.MkdirTemp", "os.TempDir") {
 				continue
 			}
-			key := "mode-restored/" + c.P.FuncName(fn)
-			chmods := callsNamed(fn, "(*os.File).Chmod", "os.Chmod")
-			var good []ssa.CallInstruction
-			for _, ch := range chmods {
-				args := ch.Common().Args
-				mode := args[len(args)-1]
-				back := c.G.Backward([]Node{mode}, func(e *engine.Edge) bool {
-					return e.Via != nil && (engine.InPackage(e.Via.Parent(), "output/handlers") || engine.InPackage(e.Via.Parent(), "proto/gen")) && e.Kind != engine.EField
-				})
-				if back.Has(fk("proto/gen.FileNode", "IsExecutable")) || back.Has(fk("proto/gen.FileOutput", "IsExecutable")) || modeControlledByExecFlag(c, fn, mode) {
-					good = append(good, ch)
-				}
-			}
-			if len(good) == 0 {
-				c.Bad("R06f", key, "the file created here never gets its mode set from the recorded executable flag: a restored executable output is not runnable", c.P.InstrPos(s))
-				continue
-			}
-			isGood := func(in ssa.Instruction) bool {
-				for _, g := range good {
-					if in == ssa.Instruction(g) {
-						return true
-					}
-				}
-				return false
-			}
-			reach2, _ := engine.PathExists(fn, s, successReturn, engine.PathQuery{CutInstr: isGood, CutEdge: engine.NilErrEdgesOf(s)})
-			reach3, _ := engine.PathExists(fn, s, successReturn, engine.PathQuery{CutInstr: isGood})
-			_ = reach2
-			c.Require(!reach3, "R06f", key, "every success path after the creation passes a Chmod whose mode depends on the recorded executable flag", "a success return is reachable after creating the file without setting its mode from the executable flag", c.P.InstrPos(s))
+			judge(fn, s, 0)
 		}
 	}
 }
 
-// modeControlledByExecFlag: the mode value is a phi selected by a branch on a value derived from IsExecutable.
-func modeControlledByExecFlag(c *Check, fn *ssa.Function, mode ssa.Value) bool {
-	phi, ok := mode.(*ssa.Phi)
-	if !ok {
-		return false
+// modeFromExecFlag: the mode value depends, by data or by control (also through helpers of the handlers
+// package), on the recorded executable flag.
+func modeFromExecFlag(c *Check, mode ssa.Value) bool {
+	filter := func(e *engine.Edge) bool {
+		return e.Via != nil && (engine.InPackage(e.Via.Parent(), "output/handlers") || engine.InPackage(e.Via.Parent(), "proto/gen")) && e.Kind != engine.EField
 	}
-	for _, b := range fn.Blocks {
-		ifi, ok := lastIf(b)
-		if !ok || !b.Dominates(phi.Block()) {
-			continue
-		}
-		back := c.G.Backward([]Node{ifi.Cond}, func(e *engine.Edge) bool {
-			return e.Via != nil && (engine.InPackage(e.Via.Parent(), "output/handlers") || engine.InPackage(e.Via.Parent(), "proto/gen")) && e.Kind != engine.EField
-		})
-		if back.Has(fk("proto/gen.FileNode", "IsExecutable")) || back.Has(fk("proto/gen.FileOutput", "IsExecutable")) {
+	flagA, flagB := fk("proto/gen.FileNode", "IsExecutable"), fk("proto/gen.FileOutput", "IsExecutable")
+	sinks := []Node{mode}
+	seen := map[Node]bool{mode: true}
+	for round := 0; round < 4; round++ {
+		back := c.G.Backward(sinks, filter)
+		if back.Has(flagA) || back.Has(flagB) {
 			return true
+		}
+		grew := false
+		addConds := func(fn *ssa.Function, dom *ssa.BasicBlock) {
+			for _, b := range fn.Blocks {
+				ifi, ok := lastIf(b)
+				if !ok || (dom != nil && !b.Dominates(dom)) {
+					continue
+				}
+				if !seen[ifi.Cond] {
+					seen[ifi.Cond] = true
+					sinks = append(sinks, ifi.Cond)
+					grew = true
+				}
+			}
+		}
+		for n := range back.Parent {
+			switch x := n.(type) {
+			case *ssa.Phi:
+				addConds(x.Parent(), x.Block())
+			case *ssa.Call:
+				if h := x.Call.StaticCallee(); h != nil && len(h.Blocks) > 0 && engine.InPackage(h, "output/handlers") {
+					addConds(h, nil)
+				}
+			}
+		}
+		if !grew {
+			return false
 		}
 	}
 	return false
